@@ -214,6 +214,9 @@ wait:
 			if c > 0 && now-p > int64(StallSeconds)*int64(time.Second) {
 				n := c - 1
 				res.Stalled = fmt.Sprintf("%d:%d", cfg.Seeds[n/uint64(cfg.RunsPer)], n%uint64(cfg.RunsPer))
+				if cfg.StopFile != "" {
+					ioutil.WriteFile(cfg.StopFile, []byte("stop"), 0644)
+				}
 				break wait
 			}
 		}
@@ -224,7 +227,7 @@ wait:
 }
 
 // StallSeconds: how long one world may run before the watchdog gives up on it.
-var StallSeconds = 60
+var StallSeconds = 20
 
 // sampleOf is a compact, readable rendering of a scenario for the evidence file.
 func sampleOf(sc *Scenario) map[string]interface{} {
